@@ -78,10 +78,12 @@ def run(ctx):
         if ok is not True:
             probs.append('local parameter of point() and T2t differ: ' + d)
         # first segment whose cumulative fraction reaches T
+        # (the cumulative fractions ascend - the fractions are positive - so knowing one of them below T settles all earlier ones,
+        #  and knowing one of them at or above T settles all later ones: a binary search decides as much as a linear scan)
         for i in range(k):
-            if not facts[i] <= frozenset('-'):
+            if not any(facts[j] <= frozenset('-') for j in range(i, N)):
                 probs.append('segment %d is skipped although its cumulative fraction may reach T (known signs %s)' % (i, sorted(facts[i])))
-        if not facts[k] <= frozenset('0+'):
+        if not any(facts[j] <= frozenset('0+') for j in range(0, k + 1)) and k != N - 1:
             probs.append('segment %d is selected although its cumulative fraction may be below T' % k)
         prev = cum[k - 1] if k > 0 else Rat.const(0)
         ok, d = decide_equal(t, (Tt - prev) / ls[k])
